@@ -20,6 +20,17 @@ pub enum KeyForm {
     Str,
     Borrowed,
     String,
+    /// keys arrive through visit_bytes (a transient copy). No given property promises that any
+    /// cgmath type accepts this form; the oracle only demands "never wrong data" here.
+    Bytes,
+    /// keys arrive through visit_borrowed_bytes
+    BorrowedBytes,
+}
+
+impl KeyForm {
+    pub fn is_bytes(self) -> bool {
+        matches!(self, KeyForm::Bytes | KeyForm::BorrowedBytes)
+    }
 }
 
 #[derive(Clone, Copy, PartialEq, Eq, Debug, Hash, Serialize, Deserialize, PartialOrd, Ord)]
@@ -83,11 +94,11 @@ impl Medium {
     }
     pub fn code(&self) -> u64 {
         (self.framing as u64)
-            | (self.key_form as u64) << 2
-            | (self.nums as u64) << 4
-            | (self.newtype as u64) << 5
-            | (self.human_readable as u64) << 6
-            | (self.size_hint as u64) << 7 // two bits
+            | (self.key_form as u64) << 2 // three bits
+            | (self.nums as u64) << 5
+            | (self.newtype as u64) << 6
+            | (self.human_readable as u64) << 7
+            | (self.size_hint as u64) << 8 // two bits
     }
 }
 
